@@ -57,6 +57,7 @@ Step(e) ==
     \/ e.ev = "def_bm"      /\ ADefBm(e)
     \/ e.ev = "digest"      /\ ADigest(e)
     \/ e.ev = "reset"       /\ AReset
+    \/ e.ev = "skip"        /\ obs' = NoObs /\ Frame
 
 TraceNext ==
     /\ l <= Len(Trace)
